@@ -21,6 +21,9 @@ def collect_on(tier: str, prop: str) -> list[dict]:
         dict(algo="PPO", kind="discrete", dims=[4], S=7, masked=True, n=4, T=1, stack=["TimeLimit"], obs_kind="discrete"),
         dict(algo="REINFORCE", kind="box", dims=[2, 2], S=3, masked=False, n=1, T=16, stack=["TimeLimit"], obs_kind="box"),
         # hyper-parameters given as plain Python floats (as a user would), incl. the falsy value 0.0
+        # one-sided action boxes: the finite bound must still be enforced by the collection loop's clip
+        dict(algo="PPO", kind="box", dims=[2], S=4, masked=False, n=2, T=5, stack=["TimeLimit"], obs_kind="box", box_high="inf"),
+        dict(algo="A2C", kind="boxscalar", dims=[4], S=4, masked=False, n=1, T=6, stack=["TimeLimit"], obs_kind="box", box_low="-inf"),
         dict(algo="A2C", kind="discrete", dims=[2], S=4, masked=False, n=2, T=6, stack=["TimeLimit"], obs_kind="box", static_hp={"gamma": 0.9, "lam": 0.0}),
         dict(algo="PPO", kind="discrete", dims=[3], S=4, masked=False, n=1, T=5, stack=[], obs_kind="box", static_hp={"gamma": 1.0, "lam": 0.0}),
     ]
@@ -59,6 +62,7 @@ def offpolicy(tier: str, prop: str) -> list[dict]:
         dict(sac, kind="box", dims=[2, 2], S=4, n=2, T=2, buffer=8, starts=3, batch=4, pfreq=2, autotune=True, stack=["TimeLimit"]),
         dict(sac, kind="boxscalar", dims=[4], S=5, n=1, T=3, buffer=5, starts=2, batch=2, pfreq=1, autotune=False, stack=["TimeLimit"], obs_kind="tuple"),
         dict(sac, kind="box", dims=[2], S=4, n=3, T=1, buffer=12, starts=1, batch=3, pfreq=3, autotune=True, stack=[]),
+        dict(sac, kind="box", dims=[2], S=4, n=2, T=2, buffer=8, starts=3, batch=4, pfreq=2, autotune=True, stack=["TimeLimit"], box_high="inf"),   # one-sided action box
     ]
     full = [  # batch == whole buffer from the first iteration on: the TD oracle applies
         dict(dqn, dims=[3], S=6, n=1, T=2, buffer=6, starts=6, batch=6, interval=2, epsilon=0.5, stack=["TimeLimit"]),
@@ -240,8 +244,8 @@ def train(tier: str, prop: str) -> list[dict]:
         c("PPO", "sim_dict", 2, 4, "rec1", [17], p_fresh=0.5),    # Dict observations with many string keys, often re-run in a fresh interpreter
         c("DQN", "sim_dict", 1, 3, "list", [13], starts=3, p_fresh=0.5),
     ]
-    if prop == "C11":
-        base = base + [dict(mode="ctor_purity", algo="none", env="ctor", n=0, T=0, observer="none", totals=[0],
+    if prop in ("C11", "C02"):
+        base = ([] if prop == "C02" else base) + [dict(mode="ctor_purity", algo="none", env="ctor", n=0, T=0, observer="none", totals=[0],
                             envs=["G1Standing", "G1Locomotion", "G1Standup", "CartPole", "Pendulum", "Acrobot", "MountainCar", "ContinuousMountainCar",
                                   "Ant", "HalfCheetah", "Hopper", "Humanoid", "HumanoidStandup", "InvertedPendulum", "InvertedDoublePendulum",
                                   "Pusher", "Reacher", "Swimmer", "Walker2d"])]
@@ -249,7 +253,7 @@ def train(tier: str, prop: str) -> list[dict]:
         base = [b for b in base if b["observer"] in ("rec1", "rec2", "list", "console", "tb", "clock", "video")]
     if prop == "C19":
         base = [b for b in base if b["observer"] in ("rec1", "rec2", "list", "video", "console", "tb")]
-    if tier == "quick":
+    if tier == "quick" or prop == "C02":
         return base
     return base + [
         c("REINFORCE", "cartpole", 2, 7, "rec1", [29, 14]),
@@ -278,11 +282,13 @@ def peers(tier: str, prop: str) -> list[dict]:
         dict(mode="lerax_to_gym", S=4, A=2, stack=[]),
         dict(mode="lerax_to_gymnax", S=5, A=3, stack=["TimeLimit"]),
         dict(mode="gymnax_to_lerax", S=0, A=2),
+        # non-default Gymnax parameters that the RESET depends on (start position at the centre, smaller goal circle, short episodes)
+        dict(mode="gymnax_to_lerax", S=0, A=2, gx="PointRobot-misc", params={"center_init": True, "circle_radius": 0.5, "max_steps_in_episode": 6}),
     ]
     if prop == "C10":
         return [b for b in base if b["mode"].startswith("gym_collect")]
     if prop == "C01":
-        return [b for b in base if b["mode"] in ("gym_direct", "lerax_to_gym")]
+        return [b for b in base if b["mode"] in ("gym_direct", "lerax_to_gym", "gymnax_to_lerax")]
     return base
 
 
